@@ -536,9 +536,33 @@ def print_module(mod, rng, trivia_p=0.3, eol="\n"):
     return "".join(out)
 
 
+def relabel_classes(nodes, rng, stack=()):
+    """class arguments as real code writes them: members and attributes mostly name the class they are
+    declared in, sometimes an ENCLOSING class (they still belong to the innermost one), and an inner
+    class is sometimes named like an enclosing one"""
+    for n in nodes:
+        if n.get("kind") == "class":
+            if stack and rng.random() < 0.1:
+                n["name"] = rng.choice(stack)
+            relabel_classes(n.get("body", []), rng, stack + (n["name"],))
+            continue
+        if n.get("kind") in ("member", "attr") and stack and n.get("rawargs") is None:
+            r = rng.random()
+            if r < 0.45:
+                n["cls"] = stack[-1]
+            elif r < 0.7 and len(stack) >= 2:
+                n["cls"] = rng.choice(stack[:-1])
+        if "body" in n:
+            relabel_classes(n["body"], rng, stack)
+        if n.get("impl"):
+            relabel_classes([n["impl"]], rng, stack)
+
+
 def gen_module(rng, **kw):
     g = ModGen(rng, **kw)
-    return g.module()
+    mod = g.module()
+    relabel_classes(mod["body"], rng)
+    return mod
 
 
 def count_nodes(nodes):
